@@ -259,7 +259,7 @@ fn script_for(steps: &[Step], pieces: &[u8], chunked: bool) -> Script {
         rules.push((When::Nth(i), a));
     }
     rules.push((When::Always, Action { pieces: pieces.iter().map(|p| *p as usize).collect(), chunked, ..Default::default() }));
-    Script { rules, data_from: 0 }
+    Script { rules, data_from: 0, max_requests: 0 }
 }
 
 fn run_http(c: &HttpCase, rec: &mut CaseRec) -> Result<(), String> {
